@@ -163,9 +163,21 @@ fn ttok_text(t: &TTok) -> String {
 fn tmatch(t: &TTok, e: &El) -> Option<bool> {
     let data = match e {
         El::Push(_, d) => Some(d.to_vec()),
+        // OP_0 (byte 00) is the push of no data
+        El::Op(0) => Some(vec![]),
         _ => None,
     };
     Some(match (t, e) {
+        // the same byte 00 held as an element-built empty push
+        (TTok::Op(0), El::Push(0, d)) if d.len() == 0 => true,
+        (TTok::Any, El::Op(0)) => true,
+        (TTok::Len(n, op), El::Op(0)) => match op % 5 {
+            0 => 0 == *n,
+            1 => 0 < *n,
+            2 => false,
+            3 => true,
+            _ => 0 >= *n,
+        },
         (TTok::Op(a), El::Op(b)) => a == b,
         (TTok::Op(_), _) => false,
         (TTok::Data(d), El::Push(..)) => Some(d.clone()) == data,
@@ -210,6 +222,7 @@ fn kind_name(k: &MatchDataTypes) -> &'static str {
 fn derive_token(e: &El, m: &Mode) -> TTok {
     let data = match e {
         El::Push(_, d) => Some(d.to_vec()),
+        El::Op(0) if matches!(m, Mode::Len(..)) => Some(vec![]),
         _ => None,
     };
     match m {
@@ -257,6 +270,9 @@ fn expected(toks: &[TTok], els: &[El]) -> Option<Result<Vec<(&'static str, Vec<u
             true => {
                 if let (Some(k), El::Push(_, d)) = (kind_of(t), e) {
                     out.push((k, d.to_vec()));
+                }
+                if let (Some(k), El::Op(0)) = (kind_of(t), e) {
+                    out.push((k, vec![]));
                 }
             }
             false => return Some(Err(())),
